@@ -24,6 +24,8 @@ type C08Cfg struct {
 	T        int       `json:"t"`
 	Late     int       `json:"late"`
 	MsgLen   int       `json:"msgLen"`
+	// Part, when set: the nodes that generate the key, a subset of the membership Deploy.IDs (sparse identifiers)
+	Part []uint16 `json:"part,omitempty"`
 }
 
 func genC08(seed uint64, tier string) C08Cfg {
@@ -43,6 +45,9 @@ func genC08(seed uint64, tier string) C08Cfg {
 	c.Serial = r.Bool(0.8)
 	if r.Bool(0.4) {
 		c.Late = r.Intn(n)
+	}
+	if r.Bool(0.5) {
+		c.Deploy.IDs, c.Part, c.Deploy.PickFixed = sparseMembership(r, n, c.Deploy.Silent, c.Deploy.PickUnsorted)
 	}
 	return c
 }
@@ -165,7 +170,13 @@ func runC08(t *testing.T, spec RunSpec) *RunResult {
 	if cfg.Deploy.Silent {
 		mode = "silent"
 	}
-	res.ConfigKey = fmt.Sprintf("ps n=%d t=%d L=%d %s", cfg.N, cfg.T, cfg.MsgLen, mode)
+	part, ids := cfg.Part, "ids=1..n"
+	if part == nil {
+		part = cfg.Deploy.IDs
+	} else {
+		ids = fmt.Sprintf("ids=sparse members=n+%d", len(cfg.Deploy.IDs)-cfg.N)
+	}
+	res.ConfigKey = fmt.Sprintf("ps n=%d t=%d L=%d %s %s", cfg.N, cfg.T, cfg.MsgLen, mode, ids)
 	restore := seedCryptoRand(spec.Seed)
 	defer restore()
 	shares := map[uint16][]byte{}
@@ -181,7 +192,7 @@ func runC08(t *testing.T, spec RunSpec) *RunResult {
 		sched, ss := scheduler(spec, cfg.Strategy)
 		lim := netsim.RunLimits{MaxSteps: 200000, Horizon: 30 * time.Minute, FairAfterSteps: 6000, FairAfter: 2 * time.Minute}
 		st := &starter{}
-		for i, id := range cfg.Deploy.IDs {
+		for i, id := range part {
 			wgt := 3.0
 			if i == cfg.Late {
 				wgt = 0.01
@@ -222,7 +233,7 @@ func runC08(t *testing.T, spec RunSpec) *RunResult {
 		fillResult(res, w, ss)
 	})
 	if completed && len(res.Violations) == 0 {
-		prob, n := psOracle(cfg.Deploy.IDs, cfg.Deploy.IDs, cfg.T, cfg.MsgLen, shares, prng.Derive(spec.Seed, "messages"), lg, 2)
+		prob, n := psOracle(part, part, cfg.T, cfg.MsgLen, shares, prng.Derive(spec.Seed, "messages"), lg, 2)
 		res.Probes["subsets-verified"] = n
 		if prob != "" {
 			res.Violations = append(res.Violations, netsim.Violation{Invariant: "C08/ps-flow", Class: "C08/ps-flow", Detail: prob})
